@@ -200,6 +200,9 @@ def idModelStep (s0 : IdM) (ws : List String) : IdM × String :=
       let r := IdHash.idAlloc m v rnd (!armed)
       ({ s with m := some r.m }, idLine r.rv (if r.rv = 0 then s!"id={r.id}" else "-") r.m.count ++ tail r.m r.safe)
     | _, _ => (s, "bad-op")
+  | ["fini"], some m =>
+    let m' := IdHash.mapFini m
+    ({ s with m := some m' }, idLine 0 "-" m'.count ++ tail m' true)
   | ["visit"], some m =>
     let r := IdHash.visitAll m (m.cap + 1) 0 [] true
     (s, idLine 0 s!"kv={showKv (sortPairs r.1)}" m.count ++ tail m r.2)
@@ -236,6 +239,7 @@ def idSpecStep (s : Option IdSpec) (ws : List String) : Option IdSpec × String 
     match rnd.toNat? with
     | some rnd => let m' := m.allocFail rnd; (some m', idLine Err.enomem "-" m'.count)
     | none => (s, "bad-op")
+  | ["fini"], some m => (some m.fini, idLine 0 "-" 0)
   | ["visit"], some m => (s, idLine 0 s!"kv={showKv m.visit}" m.count)
   | _, _ => (s, "bad-op")
 
